@@ -8,5 +8,5 @@ CONSTANTS
     WizLen = 0
     RowMode = "full"
     SkipRules = FALSE
-INVARIANTS StartTypeOK RefuseTable EmitRow
+INVARIANTS StartTypeOK RefuseTable SeenAll EmitRow
 CHECK_DEADLOCK FALSE
